@@ -411,8 +411,11 @@ func GenC02(seed uint64, run int) *Trace {
 	r := RunRng(seed, "C02", "medium", run)
 	spec := GenImageSpec(r, 5)
 	for i := range spec.Blocks {
-		if spec.Blocks[i].Size > 70 && r.Chance(4, 5) {
-			spec.Blocks[i].Size = r.Range(0, 70)
+		if sz := spec.Blocks[i].Size; sz > 70 && r.Chance(4, 5) {
+			cl := MakeBlock(BlkSpec{Kind: spec.Blocks[i].Kind, Seed: 1, Size: 1}).Cid.ByteLen()
+			if (sz+cl+1)%128 > 2 { // keep the varint-boundary sizes
+				spec.Blocks[i].Size = r.Range(0, 70)
+			}
 		}
 	}
 	if r.Chance(1, 8) {
